@@ -18,27 +18,31 @@ import (
 
 // world = one parameter set + the parties' input key shares.
 type world struct {
-	c      *eng.Ctx
-	cf     pcfg
-	rnd    *eng.Rand
-	params rlwe.Parameters
-	bp     bgv.Parameters
-	cp     ckks.Parameters
-	benc   *bgv.Encoder
-	cenc   *ckks.Encoder
-	in     *keyset
-	pkIn   *rlwe.PublicKey
-	fl     ring.DiscreteGaussian
+	c         *eng.Ctx
+	cf        pcfg
+	rnd       *eng.Rand
+	params    rlwe.Parameters
+	bp        bgv.Parameters
+	cp        ckks.Parameters
+	benc      *bgv.Encoder
+	cenc      *ckks.Encoder
+	in        *keyset
+	pkIn      *rlwe.PublicKey
+	fl        ring.DiscreteGaussian
+	x         xopt           // audit options (zero value = the original workload)
+	cache     map[string]any // protocol objects that live across rounds (x.Persist)
+	pools     map[string]*pool
+	poolOrder []string
 }
 
 func build(c *eng.Ctx, cf pcfg) *world {
-	w := &world{c: c, cf: cf, rnd: c.Rand(), fl: flood(cf.Sigma)}
+	w := &world{c: c, cf: cf, rnd: c.Rand(), fl: cf.flood(), cache: map[string]any{}, pools: map[string]*pool{}}
 	var err error
 	switch cf.Scheme {
 	case "rlwe":
 		w.params, err = rlwe.NewParametersFromLiteral(cf.rlweLit())
 	case "bgv":
-		w.bp, err = bgv.NewParametersFromLiteral(bgv.ParametersLiteral{LogN: cf.LogN, Q: cf.Q, P: cf.P, Xs: cf.xs(), PlaintextModulus: cf.T})
+		w.bp, err = bgv.NewParametersFromLiteral(bgv.ParametersLiteral{LogN: cf.LogN, Q: cf.Q, P: cf.P, Xs: cf.xs(), Xe: cf.xe(), PlaintextModulus: cf.T})
 		if err == nil {
 			w.params = w.bp.Parameters
 			w.benc = bgv.NewEncoder(w.bp)
@@ -48,7 +52,7 @@ func build(c *eng.Ctx, cf pcfg) *world {
 		if cf.Ring == "ci" {
 			rt = ring.ConjugateInvariant
 		}
-		w.cp, err = ckks.NewParametersFromLiteral(ckks.ParametersLiteral{LogN: cf.LogN, Q: cf.Q, P: cf.P, Xs: cf.xs(), RingType: rt, LogDefaultScale: cf.LogS})
+		w.cp, err = ckks.NewParametersFromLiteral(ckks.ParametersLiteral{LogN: cf.LogN, Q: cf.Q, P: cf.P, Xs: cf.xs(), Xe: cf.xe(), RingType: rt, LogDefaultScale: cf.LogS})
 		if err == nil {
 			w.params = w.cp.Parameters
 			w.cenc = ckks.NewEncoder(w.cp)
@@ -124,7 +128,20 @@ func (w *world) newMessage(level int, encKind string, logSlots int) *message {
 		if logSlots >= 0 {
 			m.pt.LogDimensions.Cols = logSlots
 		}
-		if rnd.N(3) == 0 {
+		if w.x.Scales && rnd.N(2) == 0 {
+			// scales far from the default one (what a circuit leaves behind before a rescale / after
+			// several): default * 2^k, k in [-12, 12], not a power of two
+			k := float64(rnd.N(25)-12) + rnd.F64()
+			f := w.cp.DefaultScale().Float64() * math.Exp2(k)
+			if lim := math.Exp2(float64(minInt(w.cf.QBits)) - 4); f > lim {
+				f = lim * (0.5 + 0.5*rnd.F64())
+			}
+			if f < 1<<16 {
+				f = (1 << 16) * (1 + rnd.F64())
+			}
+			m.pt.Scale = rlwe.NewScale(f)
+			w.c.Count("x_scales_far_from_default", 1)
+		} else if rnd.N(3) == 0 {
 			// non-default scale (a little below / above the default one)
 			f := w.cp.DefaultScale().Float64() * (0.5 + 1.25*rnd.F64())
 			m.pt.Scale = rlwe.NewScale(f)
